@@ -73,7 +73,18 @@ func renderAr(ms []ArMember) []byte {
 const arNameAlphabet = "abcdefghijklmnopqrstuvwxyzABCXYZ0123456789._+-"
 
 func genArData(t *rapid.T, label string) []byte {
-	switch rapid.IntRange(0, 9).Draw(t, label+"k") {
+	switch rapid.IntRange(0, 30).Draw(t, label+"k") % 11 {
+	case 10:
+		// a member about as long as a 64 KiB read-ahead window: the next header lands on, just
+		// before or just behind offset 65536 (and its multiples, with a second such member)
+		n := 65536 - 68 - 60 + rapid.IntRange(-70, 70).Draw(t, label+"w")
+		b := make([]byte, n)
+		x := uint32(rapid.IntRange(1, 1<<20).Draw(t, label+"seed"))
+		for i := range b {
+			x = x*1664525 + 1013904223
+			b[i] = byte(x >> 24)
+		}
+		return b
 	case 0:
 		return []byte{}
 	case 1:
